@@ -708,6 +708,68 @@ Proof.
   repeat split; try assumption; apply H7; assumption.
 Qed.
 
+(* ------------------------------------------------------------------ the value stored with a failed observation is never read *)
+Lemma overwrite_length : forall fails vals junk, length (overwrite fails vals junk) = length vals.
+Proof.
+  induction fails as [|f fs IH]; intros vals junk; [reflexivity|].
+  destruct vals as [|v vs]; [reflexivity|]. cbn [overwrite length]. f_equal. apply IH.
+Qed.
+
+Lemma select_overwrite : forall fails vals junk,
+  select (map negb fails) (overwrite fails vals junk) = select (map negb fails) vals.
+Proof.
+  induction fails as [|f fs IH]; intros vals junk; [reflexivity|].
+  destruct vals as [|v vs]; [reflexivity|]. cbn [overwrite map select]. destruct f; cbn [negb]; rewrite IH; reflexivity.
+Qed.
+
+(* any row-wise function that does not look at the stored value of a failed row gives the same on both histories *)
+Lemma map_combine_overwrite {B} (g : Q * bool -> B) : (forall x y, g (x, true) = g (y, true)) ->
+  forall fails vals junk, map g (combine (overwrite fails vals junk) fails) = map g (combine vals fails).
+Proof.
+  intros Hg. induction fails as [|f fs IH]; intros vals junk.
+  - destruct vals; reflexivity.
+  - destruct vals as [|v vs]; [reflexivity|]. cbn [overwrite combine map]. rewrite IH. f_equal.
+    destruct f; [apply Hg|reflexivity].
+Qed.
+
+Theorem scaled_values_overwrite (maximize : bool) vals fails junk :
+  scaled_values maximize (overwrite fails vals junk) fails = scaled_values maximize vals fails.
+Proof.
+  unfold scaled_values. rewrite select_overwrite.
+  destruct (select (map negb fails) vals) as [|q l].
+  - apply map_combine_overwrite. intros x y. reflexivity.
+  - destruct (scale_mid (q :: l)) as [s m]. apply map_combine_overwrite. intros x y. reflexivity.
+Qed.
+
+Theorem view_overwrite cs tgt points vals fails maximize k junk :
+  view cs tgt points (overwrite fails vals junk) fails maximize k = view cs tgt points vals fails maximize k.
+Proof. unfold view. rewrite scaled_values_overwrite. reflexivity. Qed.
+
+(* the same for two histories given pointwise: equal lengths, equal values at every successful observation *)
+Lemma overwrite_agree : forall fails vals vals',
+  length vals = length fails -> length vals' = length fails ->
+  (forall t, (t < length fails)%nat -> nth t fails true = false -> nth t vals 0 = nth t vals' 0) ->
+  overwrite fails vals vals' = vals'.
+Proof.
+  induction fails as [|f fs IH]; intros vals vals' H1 H2 H.
+  - destruct vals; [|discriminate]. destruct vals'; [reflexivity|discriminate].
+  - destruct vals as [|v vs]; [discriminate|]. destruct vals' as [|w ws]; [discriminate|].
+    cbn [overwrite hd tl]. f_equal.
+    + destruct f; [reflexivity|]. apply (H O); [cbn [length]; lia|reflexivity].
+    + apply IH; [simpl in H1; lia|simpl in H2; lia|].
+      intros t Ht Hf. apply (H (S t)); [cbn [length]; lia|exact Hf].
+Qed.
+
+Theorem view_agree cs tgt points vals vals' fails maximize k :
+  length vals = length fails -> length vals' = length fails ->
+  (forall t, (t < length fails)%nat -> nth t fails true = false -> nth t vals 0 = nth t vals' 0) ->
+  scaled_values maximize vals' fails = scaled_values maximize vals fails /\
+  view cs tgt points vals' fails maximize k = view cs tgt points vals fails maximize k.
+Proof.
+  intros H1 H2 H. rewrite <- (overwrite_agree fails vals vals' H1 H2 H).
+  split; [apply scaled_values_overwrite|apply view_overwrite].
+Qed.
+
 (* ------------------------------------------------------------------ the value scaling keeps the order of the successes *)
 Lemma scale_positive nf : 0 < fst (scale_mid nf).
 Proof.
